@@ -312,4 +312,28 @@ theorem solve_lows_ascending {A B C X1 X2 : Approx F} (h : Approx.solveQuadratic
       exact hs ((lt_iff _ _ hn2 hn1).2 hlt)
     exact not_lt.1 hnot
 
+/-! ## when roots are returned -/
+
+/-- **when are roots returned?**  For every scalar type: `solve_quadratic` answers `None` exactly when the lower end of the
+    discriminant interval `b·b − (a·c)·4` compares below zero — nothing later in the function can turn a solvable case into
+    `None` (with `solve_none_of_negative`: `None` is reported for every negative discriminant and *only* when the computed
+    interval reaches below zero) -/
+theorem solve_none_iff {α : Type} [Num α] (A B C : Approx α) :
+    Approx.solveQuadratic A B C = none ↔ Num.lt ((B.mul B).sub ((A.mul C).mulF 4)).low (0 : α) = true := by
+  unfold Approx.solveQuadratic
+  by_cases h : Num.lt ((B.mul B).sub ((A.mul C).mulF 4)).low (0 : α) = true
+  · simp [h]
+  · simp only [h]
+    constructor
+    · intro hn
+      simp only [Bool.false_eq_true, if_false] at hn
+      repeat' split at hn
+      all_goals cases hn
+    · intro hf; exact absurd hf (by simp)
+
+theorem solve_isSome_iff {α : Type} [Num α] (A B C : Approx α) :
+    (Approx.solveQuadratic A B C).isSome = true ↔ Num.lt ((B.mul B).sub ((A.mul C).mulF 4)).low (0 : α) = false := by
+  rw [← Bool.not_eq_true, ← solve_none_iff]
+  cases Approx.solveQuadratic A B C <;> simp
+
 end G3d.C17
